@@ -52,6 +52,7 @@ type readScript struct {
 	cut     int // -1 none
 	fault   int // -1 none
 	withEOF bool
+	withErr bool
 }
 
 var plain = readScript{cut: -1, fault: -1}
@@ -94,7 +95,7 @@ func (p *Profile) runCall(id int, api string, input []byte, rs readScript, opts 
 		c.Reset = 1
 	}
 	r := newScripted(input, rs.chunks)
-	r.cut, r.fault, r.withEOF = rs.cut, rs.fault, rs.withEOF
+	r.cut, r.fault, r.withEOF, r.withErr = rs.cut, rs.fault, rs.withEOF, rs.withErr
 	r.maxLog = maxReadsLogged + 1
 	c.Ret.Files = []*FileProj{}
 	c.Ret.Hdr = []HdrProj{}
@@ -134,6 +135,22 @@ func (p *Profile) runCall(id int, api string, input []byte, rs readScript, opts 
 		case "header":
 			var h fit.Header
 			h, err = fit.DecodeHeader(r)
+			if err == nil {
+				c.Ret.Hdr = append(c.Ret.Hdr, projHeader(h))
+			}
+		case "header_method":
+			// Header.CheckIntegrity on a Header value built from the input bytes
+			var h fit.Header
+			h.Size = input[0]
+			h.ProtocolVersion = input[1]
+			h.ProfileVersion = uint16(input[2]) | uint16(input[3])<<8
+			h.DataSize = uint32(input[4]) | uint32(input[5])<<8 | uint32(input[6])<<16 | uint32(input[7])<<24
+			copy(h.DataType[:], input[8:12])
+			if h.Size == 14 {
+				h.CRC = uint16(input[12]) | uint16(input[13])<<8
+			}
+			err = h.CheckIntegrity()
+			r.pos = int(h.Size)
 			if err == nil {
 				c.Ret.Hdr = append(c.Ret.Hdr, projHeader(h))
 			}
